@@ -332,9 +332,21 @@ def build_potential(spec):
     raise ValueError(fam)
 
 
+def alpha_estimate(pot, Tn):
+    """Bag-like estimate alpha ~ Delta(theta)/(3 a T^4), theta = V - (T/4) dV/dT, from the
+    closed-form branches (used only to select benchmark points of moderate strength)."""
+    h = 1e-4 * Tn
+
+    def theta(ph):
+        V = float(pot.V_phase(ph, Tn))
+        dV = (float(pot.V_phase(ph, Tn + h)) - float(pot.V_phase(ph, Tn - h))) / (2 * h)
+        return V - 0.25 * Tn * dV
+    return (theta("high") - theta("low")) / (3 * pot.a * Tn ** 4)
+
+
 def random_poly1(rng, s=None):
     """One-field model with comfortable margins (E >= 0.07, see DESIGN F8)."""
-    g = float(rng.choice([10, 20, 40, 80]))
+    g = float(rng.choice([20, 40, 80]))
     a = g * math.pi ** 2 / 90
     lam = float(rng.uniform(0.08, 0.2))
     E = float(rng.uniform(0.07, 0.11))
@@ -349,14 +361,14 @@ def random_poly1(rng, s=None):
 
 
 def random_poly2(rng, s=None):
-    g = float(rng.choice([20, 40, 80]))
+    g = float(rng.choice([40, 80, 106.75]))
     a = g * math.pi ** 2 / 90
-    for _ in range(200):
-        lh, ls = float(rng.uniform(0.1, 0.3)), float(rng.uniform(0.5, 1.5))
-        lhs = float(rng.uniform(0.8, 1.6))
-        ch, cs = float(rng.uniform(0.25, 0.5)), float(rng.uniform(0.15, 0.4))
+    for _ in range(4000):
+        lh, ls = float(rng.uniform(0.1, 0.3)), float(rng.uniform(0.1, 0.6))
+        lhs = float(rng.uniform(0.6, 3.0))
+        ch, cs = float(rng.uniform(0.15, 0.5)), float(rng.uniform(0.15, 0.5))
         muh2 = 1.0
-        mus2 = float(rng.uniform(0.3, 1.2))
+        mus2 = float(rng.uniform(0.4, 1.6))
         spec = {"family": "poly2", "a": a, "muh2": muh2, "ch": ch, "lh": lh, "mus2": mus2,
                 "cs": cs, "ls": ls, "lhs": lhs,
                 "s": float(10 ** rng.uniform(-2, 2)) if s is None else s}
@@ -371,7 +383,10 @@ def random_poly2(rng, s=None):
             continue
         if not pot.V_phase("low", 0.9 * Tc) < pot.V_phase("high", 0.9 * Tc):
             continue
-        spec["Tn_over_s"] = Tc * float(rng.uniform(0.85, 0.97))
+        Tn = Tc * float(rng.uniform(0.85, 0.97))
+        if not 0.005 < alpha_estimate(pot, Tn) < 0.2:
+            continue
+        spec["Tn_over_s"] = Tn
         return spec
     raise RuntimeError("no admissible poly2 point found")
 
